@@ -52,6 +52,9 @@ pub enum OpKind {
     /// arrives with a graph of its own), the derivative handed to `Array::op` is the identity - the user's derivative
     /// is the one that counts
     CSte,
+    /// `h.clone()`: another handle of the same array (same node, same gradient slot) with a copy of the flags it had
+    /// at that moment and a life of its own afterwards
+    CloneH,
 }
 
 impl OpKind {
@@ -102,6 +105,7 @@ impl OpKind {
             CNested => "custom_cube_nested".into(),
             CComp => "custom_composite".into(),
             CSte => "custom_ste_relu".into(),
+            CloneH => "clone".into(),
             CLibMul => "custom_mul_libderiv".into(),
             CLib4 => "custom_fma4_libderiv".into(),
         }
@@ -138,6 +142,7 @@ impl OpKind {
             CNested => "custom_cube_nested",
             CComp => "custom_composite",
             CSte => "custom_ste_relu",
+            CloneH => "clone",
             CLibMul => "custom_mul_libderiv",
             CLib4 => "custom_fma4_libderiv",
         }
@@ -154,13 +159,18 @@ impl OpKind {
         use OpKind::*;
         match self {
             Add | Sub | Mul | Neg | Relu | Sum(_) | Reshape(_) | Matmul { .. } | Conv { .. } | CMul | CAdd | CNeg
-            | CFma | CCube | CMulF | CNegF | CNested | CComp | CLibMul | CLib4 | CSte => true,
+            | CFma | CCube | CMulF | CNegF | CNested | CComp | CLibMul | CLib4 | CSte | CloneH => true,
             Scale(s) | Axpy(s) => s.fract() == 0.0,
             _ => false,
         }
     }
     /// an alias of its operand (same node, shared gradient slot)
     pub fn is_alias(&self) -> bool {
+        matches!(self, OpKind::Sum(0) | OpKind::CloneH)
+    }
+    /// an alias only by today's implementation (`sum(0)` may as well return a copy): generators keep it away from the
+    /// situations in which the two readings differ. A clone is an alias by definition.
+    pub fn is_soft_alias(&self) -> bool {
         matches!(self, OpKind::Sum(0))
     }
 
@@ -209,6 +219,7 @@ impl OpKind {
             }
             CCube | CNested => a[0].map(|x| x * x * x),
             CSte => a[0].map(|x| x.ste_relu()),
+            CloneH => a[0].clone(),
             CComp => same(a[0], a[1])?.zip(a[1], |x, y| x * y)?.zip(a[0], |p, x| p + x)?,
             CLibMul => same(a[0], a[1])?.zip(a[1], |x, y| x * y)?,
             CLib4 => {
@@ -249,6 +260,7 @@ impl OpKind {
             Matmul { ta, tb, c } => Array::matmul((a[0], *ta), (a[1], *tb), if *c { Some(a[2]) } else { None }),
             Conv { sr, sc } => a[0].conv(a[1], (*sr, *sc)),
             CMul | CAdd | CNeg | CFma | CCube | CMulF | CNegF | CNested | CLibMul | CLib4 | CSte => custom_op(self, a, node_id),
+            CloneH => a[0].clone(),
             CComp => {
                 let f: ForwardOp = Rc::new(|x: &[&Array]| &(x[0] * x[1]) + x[0]);
                 Array::op(a, f, None)
@@ -1081,9 +1093,13 @@ pub fn try_add_op(r: &mut Rng, cfg: &GenCfg, st: &mut GenState) {
                 cands.push((OpKind::CLib4, vec![a, b, c, d4]));
             }
         }
-        // an alias of a user-defined node (same node, shared slot): built-in `sum(0)`
+        // an alias of a user-defined node (same node, shared slot): built-in `sum(0)`, or another handle of it
         if r.chance(1, 3) {
             cands.push((OpKind::Sum(0), vec![a]));
+        }
+        if cfg.toggles {
+            cands.push((OpKind::CloneH, vec![a]));
+            cands.push((OpKind::CloneH, vec![a]));
         }
     } else {
         if compat {
@@ -1097,6 +1113,9 @@ pub fn try_add_op(r: &mut Rng, cfg: &GenCfg, st: &mut GenState) {
                 cands.push((OpKind::Div, vec![a, b]));
                 cands.push((OpKind::Div, vec![a, b]));
             }
+        }
+        if cfg.toggles {
+            cands.push((OpKind::CloneH, vec![a]));
         }
         cands.push((OpKind::Neg, vec![a]));
         cands.push((OpKind::Scale(if cfg.exact_only || r.chance(1, 2) { r.int(-2, 3) } else { 0.5 }), vec![a]));
@@ -1192,7 +1211,7 @@ pub fn try_add_op(r: &mut Rng, cfg: &GenCfg, st: &mut GenState) {
     // `sum(0)` hands back its operand (today: the same node through a clone). Whether a copy of an UNTRACKED operand
     // that is re-tracked later exposes the operand's own graph is an artefact of that aliasing, not a property: with
     // toggles in play, sum(0) is only applied to operands that are tracked at that moment.
-    if kind.is_alias() && cfg.toggles {
+    if kind.is_soft_alias() && cfg.toggles {
         let flags = current_flags(&st.p);
         if !flags[args[0]] {
             return;
@@ -1257,7 +1276,7 @@ pub fn try_add_op(r: &mut Rng, cfg: &GenCfg, st: &mut GenState) {
             pre.push((h, r.chance(1, 2)));
         }
         // (see above) the operand of a sum(0) must be tracked at the moment of use, toggles of this statement included
-        if kind.is_alias() && pre.iter().any(|(h, on)| *h == args[0] && !*on) {
+        if kind.is_soft_alias() && pre.iter().any(|(h, on)| *h == args[0] && !*on) {
             pre.clear();
         }
         if let Some(fp) = forced_pre {
